@@ -386,7 +386,7 @@ impl Prop for C05 {
     }
 
     fn cases(tier: Tier) -> u64 {
-        tier.pick(40_000, 2_000_000)
+        tier.pick(80_000, 2_000_000)
     }
 
     fn strategy(tier: Tier) -> BoxedStrategy<Case> {
